@@ -16,6 +16,36 @@ from .ratfn import RatFn, Poly
 from . import ratfn
 
 
+import threading
+
+
+class _Watchdog:
+    """z3's own timeout is not always honoured inside nlsat; interrupt the context from a timer thread."""
+
+    def __init__(self, seconds):
+        self.seconds = seconds
+        self.timer = None
+
+    def __enter__(self):
+        ctx = z3.main_ctx()
+        self.timer = threading.Timer(self.seconds, ctx.interrupt)
+        self.timer.daemon = True
+        self.timer.start()
+        return self
+
+    def __exit__(self, *a):
+        self.timer.cancel()
+        return False
+
+
+def guarded_check(solver, timeout_ms):
+    with _Watchdog(timeout_ms / 1000.0 + 0.5):
+        try:
+            return solver.check()
+        except z3.Z3Exception:
+            return z3.unknown
+
+
 class PathAbort(BaseException):
     """Path is infeasible or excluded by the harness (not an Exception on purpose)."""
 
@@ -24,13 +54,46 @@ class HarnessError(Exception):
     pass
 
 
+def simplest_fraction(x, rel=2.0 ** -50):
+    """The simplest rational within a relative distance `rel` of the float x (reals-for-floats: a float
+    such as 1./6 or 1e-10 stands for the real number it was meant to be, not for its binary expansion)."""
+    fx = Fraction(x)
+    if fx == 0 or fx.denominator == 1:
+        return fx
+    tol = abs(fx) * Fraction(rel)
+    lo, hi = fx - tol, fx + tol
+    # Stern-Brocot / continued fraction walk for the simplest fraction in [lo, hi]
+    def simplest(lo, hi):
+        fl = lo.numerator // lo.denominator
+        if fl + 1 <= hi:
+            return Fraction(fl + 1) if Fraction(fl) < lo else Fraction(fl)
+        if Fraction(fl) == lo:
+            return lo
+        r = simplest(1 / (hi - fl), 1 / (lo - fl))
+        return fl + 1 / r
+    if lo > 0:
+        return simplest(lo, hi)
+    if hi < 0:
+        return -simplest(-hi, -lo)
+    return Fraction(0)
+
+
+_FLOAT_CACHE = {}
+
+
 def fraction_of(x):
     if isinstance(x, bool):
         raise TypeError('bool')
     if isinstance(x, (int, Fraction)):
         return Fraction(x)
     if isinstance(x, float):
-        return Fraction(x)
+        r = _FLOAT_CACHE.get(x)
+        if r is None:
+            if x != x or x in (float('inf'), float('-inf')):
+                raise TypeError('non-finite float')
+            r = simplest_fraction(x)
+            _FLOAT_CACHE[x] = r
+        return r
     import numpy as _np
     if isinstance(x, _np.integer):
         return Fraction(int(x))
@@ -64,6 +127,7 @@ class Engine:
         self.warnings = []
         self.roots_used = set()
         self.tolcmp = []
+        self.signs = {}
         self.active = False
         self._cache = {}
 
@@ -96,6 +160,7 @@ class Engine:
         self.warnings = []
         self.roots_used = set()
         self.tolcmp = []
+        self.signs = {}
 
     # -- solving -----------------------------------------------------------
     def feasible(self, cond):
@@ -111,7 +176,7 @@ class Engine:
         for c in self.side:
             s.add(c)
         s.add(cond)
-        r = s.check()
+        r = guarded_check(s, self.timeout_ms)
         s.pop()
         self.solver_s += time.time() - t0
         if r == z3.unknown:
@@ -120,9 +185,58 @@ class Engine:
         self._cache[key] = res
         return res
 
-    def branch(self, cond):
+    # -- sign table: facts about polynomials already decided on this path ---------
+    _SIGNS_OF = {'<': {-1}, '<=': {-1, 0}, '>': {1}, '>=': {0, 1}, '==': {0}, '!=': {-1, 1}}
+
+    @staticmethod
+    def _factors(rf):
+        """[(monic key, sign of leading coefficient)] of the polynomial whose sign is the sign of rf."""
+        out = []
+        polys = [rf.num] + [a for a, k in rf.den if k % 2 == 1 and not ratfn._known_positive(a)]
+        for p in polys:
+            if p.is_zero():
+                return None
+            m, c = p.lead()
+            mon = p if c == 1 else p.scale(1 / c)
+            out.append((mon.key(), 1 if c > 0 else -1))
+        return out
+
+    def sign_lookup(self, rf, op):
+        """True/False when the recorded facts decide `rf op 0`, else None."""
+        fs = self._factors(rf)
+        if fs is None:
+            return 0 in self._SIGNS_OF[op]
+        poss = {1}
+        for key, lc in fs:
+            ps = self.signs.get(key)
+            if ps is None:
+                return None
+            poss = {a * lc * b for a in poss for b in ps}
+        want = self._SIGNS_OF[op]
+        if poss <= want:
+            return True
+        if not (poss & want):
+            return False
+        return None
+
+    def sign_record(self, rf, op, decision):
+        fs = self._factors(rf)
+        if fs is None or len(fs) != 1:
+            return
+        key, lc = fs[0]
+        want = self._SIGNS_OF[op] if decision else ({-1, 0, 1} - self._SIGNS_OF[op])
+        want = {w * lc for w in want}
+        cur = self.signs.get(key, {-1, 0, 1})
+        self.signs[key] = cur & want
+
+    def branch(self, cond, rf=None, op=None):
         if isinstance(cond, bool):
             return cond
+        if rf is not None and self.active:
+            known = self.sign_lookup(rf, op)
+            if known is not None:
+                # decided by facts already on the path condition: no fork, nothing to add
+                return known
         cond = z3.simplify(cond)
         if z3.is_true(cond):
             return True
@@ -130,6 +244,12 @@ class Engine:
             return False
         if not self.active:
             raise HarnessError('symbolic branch outside explore(): %s' % cond)
+        d = self._branch(cond)
+        if rf is not None:
+            self.sign_record(rf, op, d)
+        return d
+
+    def _branch(self, cond):
         i = len(self.trace)
         if i < len(self.decisions):
             d = self.decisions[i]
@@ -169,13 +289,15 @@ def lift(x):
 
 
 class SymBool:
-    __slots__ = ('e',)
+    __slots__ = ('e', 'rf', 'op')
 
-    def __init__(self, e):
+    def __init__(self, e, rf=None, op=None):
         self.e = e
+        self.rf = rf       # RatFn compared with 0 by `op` (None for compound conditions)
+        self.op = op
 
     def __bool__(self):
-        return ENG.branch(self.e)
+        return ENG.branch(self.e, self.rf, self.op)
 
     def __and__(self, o):
         return SymBool(z3.And(self.e, o.e if isinstance(o, SymBool) else z3.BoolVal(bool(o))))
@@ -217,13 +339,15 @@ class TolBool(SymBool):
     the band."""
     __slots__ = ('a', 'eps')
 
-    def __init__(self, e, a, eps):
+    def __init__(self, e, a, eps, op=None):
         self.e = e
         self.a = a          # RatFn
         self.eps = eps
+        self.rf = a
+        self.op = op
 
     def __bool__(self):
-        d = ENG.branch(self.e)
+        d = ENG.branch(self.e, self.rf, self.op)
         ENG.tolcmp.append((self.a, abs(Fraction(self.eps))))
         return d
 
@@ -320,7 +444,7 @@ class SymReal:
             if s.c is not None:
                 return SymReal(s.c / o.c)
             return SymReal(s.r * RatFn.const(1 / o.c))
-        if ENG.branch(o.r.z3_cmp('==')):
+        if ENG.branch(o.r.z3_cmp('=='), o.r, '=='):
             raise ZeroDivisionError('float division by zero (symbolic)')
         if s.c is not None and s.c == 0:
             return SymReal(0)
@@ -342,7 +466,7 @@ class SymReal:
     def __abs__(s):
         if s.c is not None:
             return SymReal(abs(s.c))
-        return s if ENG.branch(s.r.z3_cmp('>=')) else -s
+        return s if ENG.branch(s.r.z3_cmp('>='), s.r, '>=') else -s
 
     def __pow__(s, n):
         if isinstance(n, SymReal):
@@ -378,8 +502,9 @@ class SymReal:
         if dc is not None:
             return _OPS[op](dc, 0)
         if _is_tol(o):
-            return TolBool(s.r.z3_cmp(_TOL_OP[(1 if o > 0 else -1, op)]), s.r, o)
-        return SymBool(d.z3_cmp(op))
+            op0 = _TOL_OP[(1 if o > 0 else -1, op)]
+            return TolBool(s.r.z3_cmp(op0), s.r, o, op0)
+        return SymBool(d.z3_cmp(op), d, op)
 
     def __lt__(s, o): return s._c(o, '<')
     def __le__(s, o): return s._c(o, '<=')
@@ -577,15 +702,29 @@ def _perfect_square(M):
     return None
 
 
-def _const_root(fr):
+def const_root_parts(fr):
+    """sqrt(fr) = coef * sqrt(m) with m a square-free integer (m == 1: rational root)."""
+    fr = Fraction(fr)
     if fr < 0:
         raise ValueError('math domain error')
-    n, d = math.isqrt(fr.numerator), math.isqrt(fr.denominator)
-    if n * n == fr.numerator and d * d == fr.denominator:
-        return RatFn.const(Fraction(n, d))
-    name = ratfn.root_of(Poly.const(fr))
+    nd = fr.numerator * fr.denominator          # sqrt(n/d) = sqrt(n d)/d
+    s, m = 1, nd
+    f = 2
+    while f * f <= m:
+        while m % (f * f) == 0:
+            m //= f * f
+            s *= f
+        f += 1
+    return Fraction(s, fr.denominator), m
+
+
+def _const_root(fr):
+    coef, m = const_root_parts(fr)
+    if m <= 1:
+        return RatFn.const(coef * m)
+    name = ratfn.root_of(Poly.const(m))
     use_root(name)
-    return RatFn.var(name)
+    return RatFn.var(name) * RatFn.const(coef)
 
 
 def sym_sqrt(x):
@@ -737,7 +876,7 @@ def check_sat(constraints, timeout_ms=20000, tactic=None):
     s.set('timeout', timeout_ms)
     for c in constraints:
         s.add(c)
-    r = s.check()
+    r = guarded_check(s, timeout_ms)
     ENG.solver_s += time.time() - t0
     ENG.nqueries += 1
     if r == z3.sat:
